@@ -119,8 +119,6 @@ class _VersionMatch(GenericEquality, restriction.base):
     @staticmethod
     def _convert_ops(inst):
         if inst.negate:
-            if inst.droprev:
-                return inst.vals
             return tuple(sorted({-1, 0, 1}.difference(inst.vals)))
         return inst.vals
 
@@ -140,7 +138,8 @@ class _VersionMatch(GenericEquality, restriction.base):
 
     # TODO: cached_hash?
     def __hash__(self):
-        return hash((self.droprev, self.ver, self.rev, self.negate, self.vals))
+        # equality looks at the normalized operator set, so must the hash
+        return hash((self.droprev, self.ver, self.rev, self._convert_ops(self)))
 
 
 class VersionMatch(packages.PackageRestriction):
